@@ -25,7 +25,7 @@ pub fn spec() -> Spec {
         case_cap_s: |t| t.pick(300, 3600),
         rule: "one case per connected complete symbol: every labeled 2- and 3-dimensional symbol of size <= 3 with branching in {1,2,3} (every labeling), every DSyms output over DSets(2, <= N), the harness-built 2-sheeted covers of the labeled symbols of size <= 2, (thorough) 3-dimensional size 4 with branching {1,2}. Structural clauses read off the returned maps; group clauses against the textbook presentation built by the reference model: equal abelian invariants, equal subgroup class counts up to an index, for finite groups equal order (= 4/K for good spherical 2D symbols) and mutually inverse generator maps verified in the regular representations. Non-trivial = at least one generator.",
         assumptions: &["class counts are compared only while (n!)^generators <= 2*10^6 for both presentations; skipped comparisons are counted in the evidence"],
-        bounds: |t| json!({"labeled_max_size": 3, "V": [1,2,3], "dsyms_dsets_max_size": t.pick(8, 10), "class_index": 4, "deep_class_index": t.pick(5, 6), "deep_class_node_cap": t.pick(20000, 200000), "degenerate_degree_family": "every generator D-set of dim 2 with 4-9 [10] chambers and dim 3 with 4-6 [8], unbranched and with one orbit at v = 2 or 3", "larger_3d_symbols": "corpus, prisms over euclidean 2D symbols of size <= 3 [4], admissible symbols of size <= 2 [3] with branching 4 or 6, 3D Coxeter coset symbols to 48 [120] chambers", "order_cap": 3000, "dim3_size4": t.pick("V = {1,2}", "V = {1,2,3} with <= 3 branched orbits")}),
+        bounds: |t| json!({"labeled_max_size": 3, "V": [1,2,3], "dsyms_dsets_max_size": t.pick(8, 10), "class_index": 4, "deep_class_index": t.pick(5, 6), "deep_class_node_cap": t.pick(3000, 200000), "degenerate_degree_family": "every generator D-set of dim 2 with 4-9 [10] chambers and dim 3 with 4-6 [8], unbranched and with one orbit at v = 2 or 3", "larger_3d_symbols": "corpus, prisms over euclidean 2D symbols of size <= 3 [4], admissible symbols of size <= 2 [3] with branching 4 or 6, 3D Coxeter coset symbols to 48 [120] chambers", "order_cap": 3000, "dim3_size4": t.pick("V = {1,2}", "V = {1,2,3} with <= 3 branched orbits")}),
     }
 }
 
@@ -205,8 +205,9 @@ pub fn check_symbol(ctx: &mut Ctx, family: &str, s: &RS) {
     }
     // deeper indices with the reference backtracking search on both presentations (bounded effort per symbol)
     {
+        let t_deep = std::time::Instant::now();
         let kdeep = ctx.tier.pick(5, 6);
-        let cap = ctx.tier.pick(20_000u64, 200_000u64);
+        let cap = ctx.tier.pick(3_000u64, 200_000u64);
         match (low_index_ref(ng, &nonempty, kdeep, cap), low_index_ref(tb.ngens, &tb.rels, kdeep, cap)) {
             (Some(l1), Some(l2)) => {
                 let per = |l: &Vec<Action>| -> Vec<usize> {
@@ -225,6 +226,7 @@ pub fn check_symbol(ctx: &mut Ctx, family: &str, s: &RS) {
             }
             _ => ctx.add("deep_class_counts_skipped_for_cost", 1),
         }
+        ctx.add("cpu_ms_deep_class_counts", t_deep.elapsed().as_millis() as i64);
     }
     // finite groups: order and isomorphism by generator maps
     let o2 = Tc::run(tb.ngens, &tb.rels, &[], 3000);
